@@ -10,6 +10,7 @@ import (
 	"runtime/pprof"
 	"strings"
 	"sync"
+	"sync/atomic"
 	"time"
 
 	"github.com/hugelgupf/p9/p9"
@@ -29,6 +30,10 @@ type gate struct {
 type gater struct {
 	mu    sync.Mutex
 	gates []*gate
+	// barrier: calls of barrierMeth spin until barrierN of them have arrived, then return together
+	barrierMeth string
+	barrierN    int32
+	barrierCnt  int32
 }
 
 func (g *gater) arm(meth string, h int) *gate {
@@ -41,6 +46,14 @@ func (g *gater) arm(meth string, h int) *gate {
 
 func (g *gater) hook(h int, meth string) {
 	g.mu.Lock()
+	if g.barrierMeth == meth && g.barrierN > 0 {
+		n := g.barrierN
+		g.mu.Unlock()
+		atomic.AddInt32(&g.barrierCnt, 1)
+		for t0 := time.Now(); atomic.LoadInt32(&g.barrierCnt) < n && time.Since(t0) < 200*time.Millisecond; {
+		}
+		return
+	}
 	var hit *gate
 	for _, gt := range g.gates {
 		if !gt.taken && gt.meth == meth && (gt.h == 0 || gt.h == h) {
@@ -880,6 +893,82 @@ func runK7scen(r *rng, n int) {
 			if moved == 75 && entered { // judged only when the scenario formed
 				emit("k7scen name=moved-fid-and-fresh-fid-share-the-path-lock => formed=1 overlap=%d", overlap)
 			}
+		}
+		// two first walks to one never-walked name, released from the backend at the same instant:
+		// both fids must end up on one path node (a SetAttr through one excludes a GetAttr through
+		// the other)
+		for round := 0; round < 8; round++ {
+			s := newK7(r, 2)
+			s.walk(0, 0, 1, p9.ModeDirectory|0755, "d")
+			s.walk(1, 0, 1, p9.ModeDirectory|0755, "d")
+			s.be.mu.Lock()
+			s.be.forceKind = p9.ModeRegular | 0644
+			s.be.noENOSYS = true
+			s.be.mu.Unlock()
+			s.g.mu.Lock()
+			s.g.barrierMeth, s.g.barrierN, s.g.barrierCnt = "WalkGetAttr:return", 2, 0
+			s.g.mu.Unlock()
+			nm := fmt.Sprintf("n%d", round)
+			s.send(0, 110, map[string]interface{}{"fid": uint64(1), "newFID": uint64(2), "Names": []string{nm}})
+			s.send(1, 110, map[string]interface{}{"fid": uint64(1), "newFID": uint64(2), "Names": []string{nm}})
+			_, ra, _, oka := s.recvReply(0, 4*time.Second)
+			_, rb, _, okb := s.recvReply(1, 4*time.Second)
+			s.g.mu.Lock()
+			s.g.barrierN = 0
+			s.g.mu.Unlock()
+			if !oka || !okb || ra != 111 || rb != 111 {
+				s.close()
+				continue
+			}
+			s.be.mu.Lock()
+			s.be.forceKind = 0
+			s.be.mu.Unlock()
+			g := s.g.arm("GetAttr", 0)
+			s.send(0, 24, map[string]interface{}{"fid": uint64(2)})
+			if !g.waitEntered(2 * time.Second) {
+				close(g.release)
+				s.close()
+				continue
+			}
+			g2 := s.g.arm("SetAttr", 0)
+			s.send(1, 26, map[string]interface{}{"fid": uint64(2)})
+			overlap := 0
+			if g2.waitEntered(100 * time.Millisecond) {
+				overlap = 1
+			}
+			close(g.release)
+			g2.waitEntered(3 * time.Second)
+			close(g2.release)
+			s.recvReply(0, 3*time.Second)
+			s.recvReply(1, 3*time.Second)
+			s.close()
+			emit("k7scen name=simultaneous-first-walks-share-one-path-node => overlap=%d", overlap)
+		}
+		// a frame that cannot be decoded leaves no tag behind: a Tflush naming its tag is answered at
+		// once, and the tag can be used again
+		{
+			s := newK7(r, 1)
+			s.conns[0].write(rawFrame(250, 77, []byte{1, 2, 3}))
+			rl := 0
+			if tag, rt, _, ok := s.recvReply(0, 3*time.Second); ok && tag == 77 && rt == 7 {
+				rl = 1
+			}
+			s.conns[0].write(s.frame(108, 78, map[string]interface{}{"OldTag": uint64(77)}))
+			fl := 0
+			if tag, rt, _, ok := s.recvReply(0, 2*time.Second); ok && tag == 78 && rt == 109 {
+				fl = 1
+			}
+			s.conns[0].write(s.frame(24, 77, map[string]interface{}{"fid": uint64(0)}))
+			again := 0
+			if tag, rt, _, ok := s.recvReply(0, 2*time.Second); ok && tag == 77 && rt == 25 {
+				again = 1
+			}
+			s.conns[0].c.Close()
+			stopped := 0
+			if s.conns[0].waitDone(5 * time.Second) {
+				stopped = 1
+			}
+			emit("k7scen name=undecodable-frame-leaves-no-tag-behind => rlerror=%d flush=%d reuse=%d stopped=%d", rl, fl, again, stopped)
 		}
 		// an Rread whose frame is waiting to be written keeps its data: another Tread served
 		// meanwhile (same connection, pooled read buffers) must not show up in it
